@@ -77,12 +77,12 @@ pub fn complete(
         if is_escaped {
             valid_arg_found = true;
             (next_state, pos_index) =
-                parse_positional(current_cmd, pos_index, is_escaped, current_state);
+                parse_positional(current_cmd, pos_index, is_escaped, current_state, &arg);
         } else if arg.is_escape() {
             is_escaped = true;
         } else if opt_allows_hyphen(&current_state, &arg) {
             match current_state {
-                ParseState::Opt((opt, count)) => next_state = parse_opt_value(opt, count),
+                ParseState::Opt((opt, count)) => next_state = parse_opt_value(opt, count, &arg),
                 _ => unreachable!("else branch is only reachable in Opt state"),
             }
         } else if let Some((flag, value)) = arg.to_long() {
@@ -106,7 +106,7 @@ pub fn complete(
                 } else if pos_allows_hyphen(current_cmd, pos_index) {
                     valid_arg_found = true;
                     (next_state, pos_index) =
-                        parse_positional(current_cmd, pos_index, is_escaped, current_state);
+                        parse_positional(current_cmd, pos_index, is_escaped, current_state, &arg);
                 }
             }
         } else if let Some(short) = arg.to_short() {
@@ -122,16 +122,16 @@ pub fn complete(
             } else if pos_allows_hyphen(current_cmd, pos_index) {
                 valid_arg_found = true;
                 (next_state, pos_index) =
-                    parse_positional(current_cmd, pos_index, is_escaped, current_state);
+                    parse_positional(current_cmd, pos_index, is_escaped, current_state, &arg);
             }
         } else {
             match current_state {
                 ParseState::ValueDone | ParseState::Pos(..) => {
                     valid_arg_found = true;
                     (next_state, pos_index) =
-                        parse_positional(current_cmd, pos_index, is_escaped, current_state);
+                        parse_positional(current_cmd, pos_index, is_escaped, current_state, &arg);
                 }
-                ParseState::Opt((opt, count)) => next_state = parse_opt_value(opt, count),
+                ParseState::Opt((opt, count)) => next_state = parse_opt_value(opt, count, &arg),
             }
         }
     }
@@ -657,10 +657,21 @@ fn parse_positional<'a>(
     pos_index: usize,
     is_escaped: bool,
     state: ParseState<'a>,
+    arg: &clap_lex::ParsedArg<'_>,
 ) -> (ParseState<'a>, usize) {
     let pos_arg = cmd
         .get_positionals()
         .find(|p| p.get_index() == Some(pos_index));
+    // Like the real parser, the value terminator of the positional ends its values: the word
+    // itself is dropped and the next positional is up
+    if !matches!(state, ParseState::Opt(_)) && pos_arg.is_some_and(|p| is_value_terminator(p, arg))
+    {
+        return if is_escaped {
+            (ParseState::Pos((pos_index, 1)), pos_index + 1)
+        } else {
+            (ParseState::ValueDone, pos_index + 1)
+        };
+    }
     // A positional that appends keeps accepting values, however many each occurrence takes
     let num_args = pos_arg
         .and_then(|a| match a.get_action() {
@@ -701,12 +712,20 @@ fn parse_positional<'a>(
         }
         // An option is still waiting for a value: like the real parser, take the
         // argument as that value even if it looks like a flag a positional would accept.
-        ParseState::Opt((opt, count)) => (parse_opt_value(opt, count), pos_index),
+        ParseState::Opt((opt, count)) => (parse_opt_value(opt, count, arg), pos_index),
     }
 }
 
 /// Parse optional flag argument. Return new state
-fn parse_opt_value(opt: &clap::Arg, count: usize) -> ParseState<'_> {
+fn parse_opt_value<'a>(
+    opt: &'a clap::Arg,
+    count: usize,
+    arg: &clap_lex::ParsedArg<'_>,
+) -> ParseState<'a> {
+    // Like the real parser, the value terminator ends the values of the option and is dropped
+    if is_value_terminator(opt, arg) {
+        return ParseState::ValueDone;
+    }
     let range = opt.get_num_args().expect("built");
     let max = range.max_values();
     if count < max {
@@ -714,6 +733,12 @@ fn parse_opt_value(opt: &clap::Arg, count: usize) -> ParseState<'_> {
     } else {
         ParseState::ValueDone
     }
+}
+
+/// Like the real parser's `check_terminator`: is `arg` the `value_terminator` of `opt`?
+fn is_value_terminator(opt: &clap::Arg, arg: &clap_lex::ParsedArg<'_>) -> bool {
+    opt.get_value_terminator()
+        .is_some_and(|terminator| arg.to_value_os() == OsStr::new(terminator.as_str()))
 }
 
 fn has_short(cmd: &clap::Command, short: char) -> bool {
